@@ -426,7 +426,7 @@ def outcomes(g, fn_node, env, abort_only, memo=None, watch=None, reached=None, s
         if key in seen or len(seen) > 20000:
             continue
         seen.add(key)
-        if visit is not None and n.kind in ("stmt", "return") and n.ast is not None:
+        if visit is not None and n.kind in ("stmt", "return", "raise") and n.ast is not None:
             ve = dict(env)
             ve.update(dict(loc))
             ve["__fn__"] = fn_node
